@@ -2,6 +2,7 @@ package c19
 
 import (
 	"bytes"
+	"fmt"
 	"testing"
 	"time"
 
@@ -169,6 +170,56 @@ func TestRegress_C19_scenario_gauge_reference_order(t *testing.T) {
 		t.Fatalf("harness: the scenario no longer reorders the gauge reference list before the export")
 	}
 	if out := replicate(p, want, 2); out.msg != "" {
+		t.Fatalf("%s", out.msg)
+	}
+}
+
+// TestRegress_C19_scenario_valset_without_preference: a fixed history in which a delegator with three uneven staking
+// delegations and no stored validator-set preference repeatedly sends MsgDelegateToValidatorSet with amounts that do not
+// split evenly (the module derives the weights from the delegations; the last entry of the derived list receives the
+// truncation remainder). Every replica must end with the same delegations (seed c19e: list built by ranging over a map).
+func TestRegress_C19_scenario_valset_without_preference(t *testing.T) {
+	cfg := defaultCfg()
+	leader := NewNode(Bootstrap(cfg))
+	defer leader.Close()
+	p := Plan{Cfg: cfg}
+	var want []BlockResult
+	run := func(a int, msg sdk.Msg) {
+		tx, err := leader.SignTx(a, 0, 6_000_000, stdFee(), msg)
+		if err != nil {
+			t.Fatal(err)
+		}
+		blk := Block{Dt: 5 * time.Second, Txs: [][]byte{tx}, Kinds: []string{fmt.Sprintf("a%d:%T", a, msg)}, Votes: leader.Votes()}
+		br, err := leader.RunBlock(blk.Dt, blk.Txs, blk.Votes)
+		if err != nil {
+			t.Fatal(err)
+		}
+		if r := DecodeTxResult(br.Tx[0]); r.Code != 0 {
+			t.Fatalf("harness: %T rejected: %s", msg, r.Log)
+		}
+		p.Blocks = append(p.Blocks, blk)
+		want = append(want, br)
+	}
+	for _, a := range []int{0, 2, 3} {
+		pk := ed25519.GenPrivKeyFromSecret([]byte(fmt.Sprintf("c19-val-scenario-%d", a))).PubKey()
+		cv, err := stakingtypes.NewMsgCreateValidator(sdk.ValAddress(Actor(a)).String(), pk, coin(Bond, 5_000_000+int64(a)),
+			stakingtypes.NewDescription(fmt.Sprintf("v%d", a), "", "", "", ""), stakingtypes.NewCommissionRates(osmomath.NewDecWithPrec(5, 2), osmomath.NewDecWithPrec(20, 2), osmomath.NewDecWithPrec(1, 2)), osmomath.OneInt())
+		if err != nil {
+			t.Fatal(err)
+		}
+		run(a, cv)
+	}
+	vals := leader.view().vals
+	if len(vals) < 4 {
+		t.Fatalf("harness: %d validators", len(vals))
+	}
+	for i, v := range vals {
+		run(1, &stakingtypes.MsgDelegate{DelegatorAddress: Actor(1).String(), ValidatorAddress: v, Amount: coin(Bond, 1_000_003+int64(i)*777_777)})
+	}
+	for i := 0; i < 6; i++ {
+		run(1, valsettypes.NewMsgDelegateToValidatorSet(Actor(1), coin(Bond, 7_777_777+int64(i))))
+	}
+	if out := replicate(p, want, 4); out.msg != "" {
 		t.Fatalf("%s", out.msg)
 	}
 }
